@@ -165,18 +165,18 @@ func (c *Ctx) newGen(mc MsgCase, dom string) *Gen {
 }
 
 type harness struct {
-	c      *Ctx
-	mc     MsgCase
-	g      *Gen
-	s      *State
-	m      *SVal
-	mPtr   *Ptr
-	bufID  int
-	enc    *ssa.Function
-	dec    *ssa.Function
-	T      types.Type
-	ref    *Ref
-	prior  []*Term // symbolic unread bytes present before the encode
+	c     *Ctx
+	mc    MsgCase
+	g     *Gen
+	s     *State
+	m     *SVal
+	mPtr  *Ptr
+	bufID int
+	enc   *ssa.Function
+	dec   *ssa.Function
+	T     types.Type
+	ref   *Ref
+	prior []*Term // symbolic unread bytes present before the encode
 }
 
 func (c *Ctx) newHarness(mc MsgCase, dom string, H int) *harness {
@@ -228,35 +228,8 @@ func (h *harness) sumOracle(s *State) func(alg string, frame *Bytes) *Term {
 // real call whose argument is provably the same sequence, else a fresh unrelated value.
 func (c *Ctx) crcOf(s *State, data *Bytes) *Term {
 	d := data.Norm()
-	for i := len(crcLog) - 1; i >= 0; i-- {
-		e := crcLog[i]
-		ed := e.Data.Norm()
-		if ed.Vec != nil && d.Vec != nil {
-			if len(ed.Vec) != len(d.Vec) {
-				continue
-			}
-			same := true
-			for j := range d.Vec {
-				if d.Vec[j] != ed.Vec[j] {
-					same = false
-					break
-				}
-			}
-			if same {
-				return e.Res
-			}
-			continue
-		}
-		if Eq(ed.Len, d.Len) == False {
-			continue
-		}
-		eq := textEq(ed, d, 2048)
-		if eq == True {
-			return e.Res
-		}
-		if eq != False && c.e().checkSat(s, Not(eq)) == "unsat" {
-			return e.Res
-		}
+	if r := c.e().crcLookup(s, d); r != nil {
+		return r
 	}
 	if d.Vec != nil && len(d.Vec) <= 16 {
 		return crc32Model(d.Vec)
